@@ -386,17 +386,22 @@ func c24GenElems(r *Rng) [][]c24Pair {
 				v = fmt.Sprintf("%x", r.Bytes(r.Range(1, 32)))
 			case 'C':
 				v = "-----BEGIN CERTIFICATE-----\nMIIB" + fmt.Sprintf("%x", r.Bytes(8)) + "+/=\n-----END CERTIFICATE-----\n"
+				if r.Chance(15) {
+					v = Pick(r, []string{"\"pem\"", "pe\\m", "%22pem%22", "p,e;m"})
+				}
 			case 'S':
 				v = c24RenderDN(Pick(r, []string{",", ", ", ","}), c24GenRDNs(r))
 				if r.Chance(15) {
 					v = Pick(r, []string{"", "a;b,c", "x\"y", "semi;colon;s", "CN=a\\\\", "back\\slash", " lead", "trail ", "a=b;c=\"d\""})
 				}
 			case 'U':
-				v = Pick(r, []string{"spiffe://cluster.local/ns/default/sa/client", "https://a.example/x?y=1&z=2", "urn:a b+c", "spiffe://x/%zz", "a,b;c\"d"})
+				v = Pick(r, []string{"spiffe://cluster.local/ns/default/sa/client", "https://a.example/x?y=1&z=2", "urn:a b+c", "spiffe://x/%zz", "a,b;c\"d",
+					"\"x\"", "a\\b", "\\", "\"", "\"\"", "a\\\\", "\\\"", "%22x%22", "a%5Cb", "%2C%3B", "\"a,b;c\"", "x\\,y\\;z", "\"q\\\"q\""})
 			case 'D':
 				v = Pick(r, []string{"client.example.com", "*.example.org", "a", "xn--bcher-kva.example", "with,comma", "with;semi"})
 			case 'B':
-				v = Pick(r, []string{"spiffe://cluster.local/ns/default/sa/server", "http://frontend.lyft.com", "a b", "x+y", "100%"})
+				v = Pick(r, []string{"spiffe://cluster.local/ns/default/sa/server", "http://frontend.lyft.com", "a b", "x+y", "100%",
+					"\"by\"", "b\\y", "%22", "%5C%22", "a,b", "a;b", "\"a;b,c\""})
 			}
 			q := byte('q')
 			enc := key == 'C' || key == 'U' || key == 'B'
@@ -537,6 +542,23 @@ func c24Gen(g *Gen) {
 }
 
 // ---------------------------------------------------------------- execution
+
+// c24RenderParseDiff compares the grammar-side element list with ParseXfcc's result; "" = equal.
+func c24RenderParseDiff(want []c24Elem, got []vgirpc.XfccElement) string {
+	if len(want) != len(got) {
+		return fmt.Sprintf("%d elements rendered, %d parsed", len(want), len(got))
+	}
+	for i := range want {
+		w, g := want[i], got[i]
+		for _, f := range [][3]string{{"hash", w.hash, g.Hash}, {"cert", w.cert, g.Cert}, {"subject", w.subject, g.Subject},
+			{"uri", w.uri, g.URI}, {"by", w.by, g.By}, {"dns", strings.Join(w.dns, "\x00"), strings.Join(g.DNS, "\x00")}} {
+			if f[1] != f[2] {
+				return fmt.Sprintf("element %d %s: rendered %q, parsed %q", i, f[0], f[1], f[2])
+			}
+		}
+	}
+	return ""
+}
 
 func c24ShowElem(e vgirpc.XfccElement) string {
 	d := make([]string, len(e.DNS))
@@ -697,6 +719,11 @@ func c24Exec(c *Case) {
 			h := c24Render(fc, elems)
 			got := vgirpc.ParseXfcc(h)
 			want := c24Expected(elems)
+			// the grammar clause, independent of the Lean model: the parsed element list must equal the
+			// element list the header was rendered from
+			if d := c24RenderParseDiff(want, got); d != "" {
+				c.Oracle("xfcc-render-parse-mismatch", fmt.Sprintf("%s: header %q rendered from the grammar is not read back: %s", l, h, d))
+			}
 			if len(got) != len(want) {
 				c.Oracle("xfcc-element-count", fmt.Sprintf("%s: header %q parsed into %d elements, grammar has %d", l, h, len(got), len(want)))
 			} else {
